@@ -42,9 +42,13 @@ Not tied here (the model is silent or deliberately different; see the final repo
   * NaN as tmin / tmax / closest_index argument (numpy sorts NaN last; ss_left / ss_right count nothing);
   * complex samples with an infinite part (np.abs is hypot: hypot(inf, nan) = inf, cabs gives nan);
   * NaN distances on usable pulse-echo timetraces (polyfit raises LinAlgError; no such outcome in the model);
-  * dead-element flags stored as an INTEGER array on the probe after construction (fancy indexing: fancy_indices only);
-  * an EMPTY boolean vector stored as probe.dead_elements of a non-empty probe after construction: numpy accepts an empty
-    boolean index (no dead element), dead_indices answers None (E_Index).  Probe.__init__ excludes the state.
+  * dead-element flags stored as an INTEGER array on the probe after construction (fancy indexing: fancy_indices only).
+
+Boolean vectors stored as probe.dead_elements after construction (Probe.__init__ asserts the shape, an assignment does not):
+numpy accepts np.asarray(range(n))[flags] for flags of length n and ALSO for the EMPTY boolean vector on a probe of any size
+(nothing selected: no dead element); every other length is an IndexError.  dead_indices follows that rule; it is tied
+directly (kind "deadidx": every length from 0 to 2 n + 1) and through move_probe_over_flat_surface /
+find_probe_loc_from_frontwall with the empty vector assigned to a non-empty probe (counted in tie_C19_dead_vector).
 """
 import json
 import linecache
@@ -57,6 +61,7 @@ from common import cZ, cfloat, clist, cpair, cbool, copt
 
 CORR = {
     "dead": "init_dead / dead_indices vs arim.Probe(..., dead_elements=...).dead_elements and np.asarray(range(n))[flags]",
+    "deadidx": "dead_indices vs np.asarray(range(n))[boolean vector of any length]",
     "fancy": "fancy_indices vs np.asarray(range(n))[integer array]",
     "pairs": "fmc_pairs / hmc_pairs vs arim.ut.fmc / arim.ut.hmc",
     "move": "fit_pose / move_probe_obj vs arim.measurement.move_probe_over_flat_surface(frame, distances, full_output=True)",
@@ -150,6 +155,7 @@ Definition zpairs_eqb (a b : list (Z * Z)) : bool := list_eqb zpair_eqb a b.
 
 Inductive tcase : Type :=
 | TDead (n : Z) (a : dead_arg) (want : option (list bool)) (idx : list Z)
+| TDeadIdx (n : Z) (fl : list bool) (want : option (list Z))
 | TFancy (n : Z) (ints : list Z) (want : option (list Z))
 | TPairs (n : Z) (fmc hmc : list (Z * Z))
 | TMove (p : probe (T:=float)) (dead : list bool) (tx rx : list Z) (ds : list float) (r : polyrec)
@@ -182,6 +188,7 @@ Definition check_case (t : tcase) : bool :=
                    list_eqb Z.eqb (mask_positions 0%Z fl) idx
       | None => true
       end
+  | TDeadIdx n fl want => option_eqb (list_eqb Z.eqb) (dead_indices (Z.to_nat n) fl) want
   | TFancy n ints want => option_eqb (list_eqb Z.eqb) (fancy_indices (Z.to_nat n) ints) want
   | TPairs n f h => zpairs_eqb (fmc_pairs (Z.to_nat n)) f && zpairs_eqb (hmc_pairs (Z.to_nat n)) h
   | TMove p dead tx rx ds r th c s tol ctol want after =>
@@ -541,6 +548,18 @@ class Tie:
                 value, codes = tuple(flags), [int(b) for b in flags]
             self.dead_case(n, ["each", codes], value, "each:wrong length" if wrong else "each")
 
+    def deadidx_case(self, n, flags):
+        """np.asarray(range(n))[boolean vector] for a vector of ANY length (the statement of measurement.py:138)"""
+        try:
+            want = [int(k) for k in np.asarray(range(n))[np.array(flags, dtype=bool)]]
+        except IndexError:
+            want = None
+        m = len(flags)
+        sub = ("length n" if m == n else "empty vector on a non-empty probe" if m == 0 else "wrong length") + \
+            (": accepted" if want is not None else ": IndexError")
+        self.add("deadidx", sub, f"TDeadIdx {cZ(n)} {cbl(flags)} {copt(want, czl)}", {"n": n, "flags": flags, "numpy": want},
+                 f"dead_indices (Z.to_nat {cZ(n)}) {cbl(flags)}")
+
     def fancy_case(self, n, ints, sub):
         try:
             want = [int(k) for k in np.asarray(range(n))[np.array(ints, dtype=np.int64)]]
@@ -573,6 +592,10 @@ class Tie:
         p = arim.Probe(g.Points(np.array(spec["locs"], float).reshape(-1, 3)), 1e6, **kw)
         if spec.get("dead_override") is not None:
             p.dead_elements = np.array(spec["dead_override"], dtype=bool)
+            m = len(spec["dead_override"])
+            self.chk.count(tie_C19_dead_vector="assigned after construction: " + (
+                "one flag per element" if m == p.numelements else
+                "EMPTY on a non-empty probe" if m == 0 else "wrong length"))
         return p
 
     @staticmethod
@@ -809,7 +832,7 @@ class Tie:
                     ds.insert(min(k, len(ds)), 2.0)
                     tx, rx = [a for a, _ in pairs], [b for _, b in pairs]
             elif f == "deadlen":
-                # (not 0: numpy accepts an EMPTY boolean index of any vector - empty result -, dead_indices answers None)
+                # (not 0: the EMPTY boolean vector is no fault - numpy accepts it, no dead element -; see below)
                 m = int(rng.choice([c for c in (1, n - 1, n + 1, 2 * n) if c > 0 and c != n]))
                 spec["dead_override"] = [bool(rng.random() < 0.3) for _ in range(m)]
             elif f == "degenerate":
@@ -840,6 +863,11 @@ class Tie:
                 tx, rx = [t for t, _ in pairs], [r_ for _, r_ in pairs]
         tx, rx = [t for t, _ in pairs], [r_ for _, r_ in pairs]
         sub = "valid" if not faults else ("fault:" + "+".join(sorted(faults)) if fault != "combo" else "fault:combo")
+        if "deadlen" not in faults and rng.random() < 0.12:
+            # the EMPTY boolean vector assigned to the probe after construction: accepted, no dead element (whatever flags the
+            # constructor was given: every pulse-echo timetrace of an element of the probe is used)
+            spec["dead_override"] = []
+            sub += "+empty dead vector"
         self.move_case(spec, tx, rx, ds, sub)
 
     # -- argmax / detection / Time ------------------------------------------------------------------------------------------
@@ -1151,8 +1179,12 @@ class Tie:
             if tmax is not None and tmax < start and rng.random() < 0.8:
                 tmax = None
         brk = float(rng.choice([2.0, 0.5, 1.0 + 2.0 ** -10])) if fault == "cs" else False
-        self.front_case(spec, (R, tvec), (start, step, num), arr, rows, cplx, pairs, c, tmin, tmax,
-                        "valid:" + flavour if fault is None else "fault:" + fault, exact=exact, break_pcs=brk)
+        sub = "valid:" + flavour if fault is None else "fault:" + fault
+        if rng.random() < 0.1:
+            spec["dead_override"] = []      # the EMPTY boolean vector assigned after construction: no dead element
+            sub += "+empty dead vector"
+        self.front_case(spec, (R, tvec), (start, step, num), arr, rows, cplx, pairs, c, tmin, tmax, sub, exact=exact,
+                        break_pcs=brk)
 
     # -- fixed examples of the prover's note ---------------------------------------------------------------------------
     def fixed(self):
@@ -1183,6 +1215,14 @@ class Tie:
         self.move_case(dict(lin3, dead=None), tx, rx, [1.0, 0, 0, 0, -1, 0, 0, 0, 1], "note")
         self.move_case(dict(lin3, dead=None), tx, rx, [1.0, -1, -1, -1, 1, -1, -1, -1, 1], "note")
         self.move_case(dict(lin3, dead=None, dead_override=[False, True]), tx, rx, [1.0] * 9, "note")
+        # the EMPTY boolean vector assigned after construction: no dead element (although element 1 was declared dead)
+        self.move_case(dict(lin3, dead=[False, True, False], dead_override=[]), tx, rx,
+                       [10.0, 11, 12, 13, 10.5, 15, 16, 17, 11.0], "note:empty dead vector")
+        self.move_case(dict(lin3, dead=[True, False, True], dead_override=[]), tx, rx, [], "note:empty dead vector")
+        self.move_case(dict(lin3, dead=None, dead_override=[]), [0, 1], [1, 1], [1.0, 1.0], "note:empty dead vector")
+        for n_, fl in ((3, []), (3, [False, True, False]), (3, [True]), (3, [False, True]), (0, []), (0, [True]), (1, []),
+                       (1, [True]), (5, [True] * 6)):
+            self.deadidx_case(n_, fl)
         self.move_case(dict(lin3, dead=None), [-1, 2, 0, -1], [-1, 2, 0, 2], [1.0, 1.0, 2.0, 5.0], "note")
         self.move_case(dict(lin3, dead=[False, False, True]), [-1, 2, 0, -1], [-1, 2, 0, 2], [1.0, 1.0, 2.0, 5.0], "note")
         # argmax and detection
@@ -1225,6 +1265,11 @@ class Tie:
             if (bad or n == 0) and k:
                 ints[int(rng.integers(k))] = int(rng.choice([n, n + 2, -n - 1, -n - 5]))
             self.fancy_case(n, ints, "out of range" if (bad or n == 0) and k else "in range")
+        for _ in range(40 * m):
+            n = int(rng.choice([0, 1, 2, 3, 4, 5, 8]))
+            k = int(rng.choice([n, 0, int(rng.integers(0, 2 * n + 2))], p=[0.4, 0.25, 0.35]))
+            pd = [0.0, 0.3, 0.7, 1.0][int(rng.integers(4))]
+            self.deadidx_case(n, [bool(rng.random() < pd) for _ in range(k)])
         for _ in range(4 * m):
             self.pairs_case(int(rng.integers(0, 12)))
         for _ in range(170 * m):
